@@ -336,13 +336,15 @@ def run(ctx):
         ('Geometric(0.75)', lambda: GeometricCredit()),
         ('Geometric(0)', lambda: GeometricCredit(factor=0)),
         ('Geometric(0.99)', lambda: GeometricCredit(factor=0.99)),
+        ('Geometric(0.5)', lambda: GeometricCredit(factor=0.5)),            # 0.0002 at attempt 13, 0.0001 at attempt 14
+        ('author:tiny', lambda: (lambda n: 1 if n < 2 else 0.0003)),        # tiny but not zero: grades stay positive, ok stays 'partial'
         ('Reciprocal', lambda: ReciprocalCredit()),
         ('author:int', lambda: (lambda n: 1 if n < 3 else 0)),
         ('author:float', lambda: (lambda n: 1.0 if n < 2 else 0.3333333)),
         ('author:const', lambda: (lambda n: 0.5)),
         ('author:rounds_to_1', lambda: (lambda n: 0.99996)),
     ]
-    attempts = [1, 2, 3, 4, 5, 6, 7, 10, 50, 200, 0, -1, -5, None]
+    attempts = [1, 2, 3, 4, 5, 6, 7, 10, 13, 14, 50, 200, 0, -1, -5, None]      # (13, 14: geometric credits of 1e-4 .. 5e-4)
     graders = make_graders(rng, None)
     combos = []
     for gi, (desc, build, inputs) in enumerate(graders):
